@@ -1,14 +1,55 @@
-// C20: Geoid heights depend only on data and position, never on cache history
+// C20: Geoid heights depend only on data and position, never on cache history; malformed files are rejected
 #include "common.hpp"
-#include <GeographicLib/Geoid.hpp>
-#include <GeographicLib/Math.hpp>
+#include <iostream>
+#include <string>
+#include <sstream>
 #include <fstream>
 #include <memory>
+#include <algorithm>
 #include <unistd.h>
+#include <fcntl.h>
+#include <sys/stat.h>
+#include <sys/types.h>
+#include <dirent.h>
+#include <ctime>
+#include <GeographicLib/Geoid.hpp>
+#include <GeographicLib/Math.hpp>
+#include <GeographicLib/DMS.hpp>
+#include <GeographicLib/Utility.hpp>
+#include <GeographicLib/GeoCoords.hpp>
+#include <GeographicLib/UTMUPS.hpp>
+
+// The command-line tool is compiled from the *current* $GV_REPO/tools/GeoidEval.cpp into this harness (same library
+// build, same sanitizers); its `main` and `usage` live in a namespace.  All headers it includes are included above.
+namespace tool_geoideval {
+#include "../tools/GeoidEval.cpp"
+}
+#include "C20_hdr.hpp"
+
 using namespace GeographicLib; using namespace gv;
 
+// scratch directory: $GV_SCRATCH (set by tools/props.d/C20.py to <verif>/_cache/scratch/C20) or /tmp
 static std::string tmpdir() {
-  static std::string d; if (d.empty()) { char t[] = "/tmp/gvgeoidXXXXXX"; d = mkdtemp(t); } return d;
+  static std::string d;
+  if (d.empty()) {
+    const char* b = std::getenv("GV_SCRATCH"); std::string base = (b && *b) ? b : "/tmp";
+    for (size_t i = 1; i <= base.size(); ++i) if (i == base.size() || base[i] == '/') mkdir(base.substr(0, i).c_str(), 0777);
+    // remove scratch directories that an aborted run left behind (older than two hours)
+    if (DIR* dp = opendir(base.c_str())) {
+      time_t now = time(nullptr);
+      while (dirent* e = readdir(dp)) {
+        std::string n = e->d_name; if (n.compare(0, 7, "gvgeoid") != 0) continue;
+        std::string p = base + "/" + n; struct stat st;
+        if (::stat(p.c_str(), &st) != 0 || !S_ISDIR(st.st_mode) || now - st.st_mtime < 7200) continue;
+        if (DIR* dq = opendir(p.c_str())) { while (dirent* f = readdir(dq)) { std::string fn = f->d_name; if (fn != "." && fn != "..") { std::string q = p + "/" + fn; if (::unlink(q.c_str()) != 0) ::rmdir(q.c_str()); } } closedir(dq); }
+        ::rmdir(p.c_str());
+      }
+      closedir(dp);
+    }
+    std::string t = base + "/gvgeoidXXXXXX"; std::vector<char> buf(t.begin(), t.end()); buf.push_back(0);
+    char* r = mkdtemp(buf.data()); d = r ? r : "/tmp";
+  }
+  return d;
 }
 static uint64_t mix(uint64_t z) { z += 0x9e3779b97f4a7c15ULL; z = (z ^ (z >> 30)) * 0xbf58476d1ce4e5b9ULL; z = (z ^ (z >> 27)) * 0x94d049bb133111ebULL; return z ^ (z >> 31); }
 static unsigned pixel_at(int kind, uint64_t seed, int w, int ix, int iy) {
@@ -18,8 +59,9 @@ static unsigned pixel_at(int kind, uint64_t seed, int w, int ix, int iy) {
     default: return unsigned(mix(seed + uint64_t(iy)) & 0xffff); }
 }
 static std::string fmt(double v) { char b[64]; std::snprintf(b, sizeof b, "%.17g", v); return b; }
+static std::string pgm_path(const std::string& name) { return tmpdir() + "/" + name + ".pgm"; }
 static std::string write_pgm(const std::string& name, const std::string& magic, bool offp, double offset, bool scp, double scale, int w, int h, long maxval, int kind, uint64_t seed, long delta) {
-  std::string path = tmpdir() + "/" + name + ".pgm";
+  std::string path = pgm_path(name);
   std::ofstream f(path, std::ios::binary);
   f << magic << "\n# Description synthetic raster\n";
   if (offp) f << "# Offset " << fmt(offset) << "\n";
@@ -32,6 +74,23 @@ static std::string write_pgm(const std::string& name, const std::string& magic, 
 }
 static std::vector<std::string> splitc(const std::string& s) { std::vector<std::string> r; std::string t; std::istringstream is(s); while (std::getline(is, t, ':')) r.push_back(t); return r; }
 
+// constructor with the text of the exception (file name stripped)
+struct Ctor { std::unique_ptr<Geoid> g; std::string err; bool geo = false; };
+static Ctor construct(const std::string& name, const std::string& dir, bool cubic, bool ts) {
+  Ctor c;
+  try { c.g.reset(new Geoid(name, dir, cubic, ts)); }
+  catch (const GeographicErr& e) { c.geo = true; std::string m = e.what(); size_t p = m.find(" " + dir + "/"); c.err = p == std::string::npos ? m : m.substr(0, p); if (c.err.empty()) c.err = "?"; }
+  catch (const std::bad_alloc&) { c.err = "!A"; }
+  catch (const std::exception& e) { c.err = std::string("!O:") + typeid(e).name(); }
+  catch (...) { c.err = "!O:unknown"; }
+  return c;
+}
+
+// ---------------------------------------------------------------------------------------------------------
+// histories: height queries interleaved with CacheArea / CacheAll / CacheClear / ConvertHeight on one object
+// ---------------------------------------------------------------------------------------------------------
+static std::string extent(const Geoid& g) { return std::string(g.Cache() ? "1" : "0") + ":" + hx(g.CacheWest()) + ":" + hx(g.CacheEast()) + ":" + hx(g.CacheNorth()) + ":" + hx(g.CacheSouth()); }
+
 static Reg r_geoid("geoid", [](const Args& a) {
   int w = std::atoi(a[0].c_str()), h = std::atoi(a[1].c_str()); double offset = unhx(a[2]), scale = unhx(a[3]); bool cubic = a[4] == "1", ts = a[5] == "1";
   int kind = std::atoi(a[6].c_str()); uint64_t seed = std::strtoull(a[7].c_str(), nullptr, 10);
@@ -39,35 +98,77 @@ static Reg r_geoid("geoid", [](const Args& a) {
   write_pgm(name, "P5", true, offset, true, scale, w, h, 65535, kind, seed, 0);
   std::unique_ptr<Geoid> g, fresh_ts;
   std::string e0 = guarded([&] { g.reset(new Geoid(name, tmpdir(), cubic, ts)); fresh_ts.reset(new Geoid(name, tmpdir(), cubic, true)); });
-  if (!e0.empty()) { emit("!ctor" + e0); bad("valid-file-rejected", "well-formed synthetic raster rejected by the constructor"); return; }
-  std::string out;
+  if (!e0.empty()) { emit("!ctor" + e0); bad("valid-file-rejected", "well-formed synthetic raster rejected by the constructor"); std::remove(pgm_path(name).c_str()); return; }
+  if (g->ThreadSafe() != ts || !fresh_ts->ThreadSafe()) bad("threadsafe-flag", "ThreadSafe() does not report the constructor argument");
+  if (g->Offset() != offset || g->Scale() != scale) bad("offset-scale", "Offset()/Scale() differ from the values in the file: " + fmt(g->Offset()) + " " + fmt(g->Scale()));
+  if (g->Interpolation() != (cubic ? "cubic" : "bilinear")) bad("interpolation-name", g->Interpolation());
+  std::string out; const double mag = std::fabs(offset) + scale * 65535;
   for (size_t i = 8; i < a.size(); ++i) {
     auto t = splitc(a[i]);
     if (t[0] == "H") {
       double lat = unhx(t[1]), lon = unhx(t[2]), v = 0;
+      // documented: no file access for a position inside a successfully cached area
+      bool inside = false;
+      if (!ts && g->Cache() && std::isfinite(lat) && std::isfinite(lon) && std::fabs(lat) <= 90) {
+        double W = g->CacheWest(), E = g->CacheEast(), N = g->CacheNorth(), S = g->CacheSouth(), ln = Math::AngNormalize(lon), m = 1e-6;
+        if (lat < N - m && lat > S + m) for (int k = -1; k <= 2; ++k) if (ln + 360 * k > W + m && ln + 360 * k < E - m) inside = true;
+        if (inside) { g->_file.clear(); g->_file.seekg(0); }
+      }
       std::string e = guarded([&] { v = (*g)(lat, lon); });
       out += " " + (e.empty() ? hx(v) : e);
-      if (!e.empty()) { bad("height-throws", "height query threw " + e); continue; }
+      if (!e.empty()) { bad("height-throws", "height query threw " + e + " at op " + std::to_string(i - 8)); continue; }
+      if (inside && g->_file.tellg() != std::streampos(0)) bad("cached-area-reads-file", "a query inside the reported cache extent accessed the file (op " + std::to_string(i - 8) + ")");
       // the property itself: bit-for-bit the value a fresh object (no history, no cache) and a thread-safe object return
-      double v1 = 0, v2 = 0; Geoid f1(name, tmpdir(), cubic, false); v1 = f1(lat, lon); v2 = (*fresh_ts)(lat, lon);
+      double v1 = 0, v2 = 0; std::unique_ptr<Geoid> f1;
+      std::string e1 = guarded([&] { f1.reset(new Geoid(name, tmpdir(), cubic, false)); v1 = (*f1)(lat, lon); }), e2 = guarded([&] { v2 = (*fresh_ts)(lat, lon); });
+      if (!e1.empty()) { bad("height-throws", "fresh object threw " + e1); continue; }
+      if (!e2.empty()) bad("cache-mode-dependence", "thread-safe object threw " + e2 + " where a plain object returns " + fmt(v1));
       if (bits(v1) != bits(v) && !(std::isnan(v) && std::isnan(v1))) bad("history-dependence", "height differs from a fresh object's: " + fmt(v) + " vs " + fmt(v1) + " at op " + std::to_string(i - 8));
-      if (bits(v2) != bits(v) && !(std::isnan(v) && std::isnan(v2))) bad("cache-mode-dependence", "height differs from a thread-safe object's: " + fmt(v) + " vs " + fmt(v2) + " at op " + std::to_string(i - 8));
+      if (e2.empty() && bits(v2) != bits(v) && !(std::isnan(v) && std::isnan(v2))) bad("cache-mode-dependence", "height differs from a thread-safe object's: " + fmt(v) + " vs " + fmt(v2) + " at op " + std::to_string(i - 8));
       if (std::isfinite(lat) && std::isfinite(lon) && std::fabs(lat) <= 90) {
         // periodic in longitude (exact shift), NaN only for NaN input
-        double l2 = lon + 360; if (l2 - 360 == lon && std::remainder(l2, 360.0) == std::remainder(lon, 360.0)) { double v3 = f1(lat, l2); if (bits(v3) != bits(v1)) bad("longitude-period", "height(lat, lon+360) differs"); }
+        double l2 = lon + 360; if (l2 - 360 == lon && std::remainder(l2, 360.0) == std::remainder(lon, 360.0)) { double v3 = (*f1)(lat, l2); if (bits(v3) != bits(v1)) bad("longitude-period", "height(lat, lon+360) differs"); }
         if (std::isnan(v)) bad("nan-for-finite-input", "NaN height for a finite position");
-        // conversions are mutually inverse
-        double hh = 123.456, back = g->ConvertHeight(lat, lon, g->ConvertHeight(lat, lon, hh, Geoid::GEOIDTOELLIPSOID), Geoid::ELLIPSOIDTOGEOID);
-        if (!(std::fabs(back - hh) <= 1e-9)) bad("convert-height", "ConvertHeight round trip off by " + fmt(back - hh));
+        // a bilinear height is a convex combination of pixel values
+        if (!cubic && !(v >= offset - 1e-9 * mag && v <= offset + scale * 65535 + 1e-9 * mag)) bad("height-range", "bilinear height " + fmt(v) + " outside the range of the data");
       } else if (!std::isnan(v)) bad("nan-input", "non-NaN height for NaN / out-of-range latitude input");
+    } else if (t[0] == "C") {
+      // ConvertHeight in both directions; mutually inverse to round-off; NONE is the identity
+      double lat = unhx(t[1]), lon = unhx(t[2]), hh = unhx(t[3]), up = 0, dn = 0, N = 0, back = 0, back2 = 0, same = 0;
+      std::string e = guarded([&] { up = g->ConvertHeight(lat, lon, hh, Geoid::GEOIDTOELLIPSOID); dn = g->ConvertHeight(lat, lon, hh, Geoid::ELLIPSOIDTOGEOID); N = (*g)(lat, lon);
+        back = g->ConvertHeight(lat, lon, up, Geoid::ELLIPSOIDTOGEOID); back2 = g->ConvertHeight(lat, lon, dn, Geoid::GEOIDTOELLIPSOID); same = g->ConvertHeight(lat, lon, hh, Geoid::NONE); });
+      out += " " + (e.empty() ? hx(up) + ":" + hx(dn) : e);
+      if (!e.empty()) { bad("height-throws", "ConvertHeight threw " + e); continue; }
+      if (std::isfinite(N) && std::isfinite(hh)) {
+        double tol = 4 * ulp(std::fabs(hh) + std::fabs(N));
+        if (!(std::fabs(back - hh) <= tol) || !(std::fabs(back2 - hh) <= tol)) bad("convert-height-inverse", "ConvertHeight round trip off by " + fmt(back - hh) + " / " + fmt(back2 - hh) + " (tolerance " + fmt(tol) + ")");
+        if (!(std::fabs(up - (hh + N)) <= tol) || !(std::fabs(dn - (hh - N)) <= tol)) bad("convert-height-value", "ConvertHeight is not h +/- N: " + fmt(up) + " " + fmt(dn) + " h=" + fmt(hh) + " N=" + fmt(N));
+        if (bits(same) != bits(hh) && !(same == hh)) bad("convert-height-none", "ConvertHeight(NONE) changed the height");
+      }
     } else if (t[0] == "A") {
-      std::string e = guarded([&] { g->CacheArea(unhx(t[1]), unhx(t[2]), unhx(t[3]), unhx(t[4])); }); out += " " + (e.empty() ? std::string("-") : e);
+      double so = unhx(t[1]), we = unhx(t[2]), no = unhx(t[3]), ea = unhx(t[4]);
+      std::string e = guarded([&] { g->CacheArea(so, we, no, ea); }); out += " " + (e.empty() ? std::string("-") : e) + ":" + extent(*g);
       if (!e.empty() && e != "!E") bad("foreign-exception", e);
-    } else if (t[0] == "L") { std::string e = guarded([&] { g->CacheAll(); }); out += " " + (e.empty() ? std::string("-") : e); }
-    else if (t[0] == "X") { g->CacheClear(); out += " -"; }
+      if (e.empty() && !ts && so <= no && std::fabs(so) <= 90 && std::fabs(no) <= 90 && std::isfinite(we) && std::isfinite(ea)) {
+        // the reported extent contains the requested rectangle
+        if (!g->Cache()) bad("cache-flag", "Cache() is false after a successful CacheArea");
+        double W = g->CacheWest(), E = g->CacheEast(), N = g->CacheNorth(), S = g->CacheSouth(), wn = Math::AngNormalize(we), en = Math::AngNormalize(ea), m = 1e-9 * 360;
+        if (en <= wn) en += 360;
+        bool lonok = E - W >= 360 - m; for (int k = -2; k <= 2 && !lonok; ++k) if (W + 360 * k <= wn + m && en <= E + 360 * k + m) lonok = true;
+        if (!(N >= no - m && S <= so + m && lonok)) bad("cache-extent", "reported cache extent S=" + fmt(S) + " W=" + fmt(W) + " N=" + fmt(N) + " E=" + fmt(E) + " does not contain the requested area");
+      }
+      if (e.empty() && !ts && so > no && g->Cache()) bad("cache-flag", "Cache() is true after CacheArea with south > north (documented: clears the cache)");
+    } else if (t[0] == "L") {
+      std::string e = guarded([&] { g->CacheAll(); }); out += " " + (e.empty() ? std::string("-") : e) + ":" + extent(*g);
+      if (e.empty() && !(g->Cache() && g->CacheNorth() == 90 && std::fabs(g->CacheSouth() + 90) <= 1e-9 && std::fabs(g->CacheEast() - g->CacheWest() - 360) <= 1e-9)) bad("cache-extent", "CacheAll does not report the whole sphere");
+    } else if (t[0] == "X") {
+      g->CacheClear(); out += " -:" + extent(*g);
+      if (!ts && (g->Cache() || g->CacheWest() != 0 || g->CacheEast() != 0 || g->CacheNorth() != 0 || g->CacheSouth() != 0)) bad("cache-flag", "cache extent not reset by CacheClear");
+      if (ts && !g->Cache()) bad("cache-flag", "CacheClear changed a thread-safe object");
+    }
   }
   emit(out.empty() ? "" : out.substr(1));
-  std::remove((tmpdir() + "/" + name + ".pgm").c_str());
+  std::remove(pgm_path(name).c_str());
 });
 
 // bilinear laws on the implementation: nodes reproduce the grid value, linear along edges, continuous across cells
@@ -88,7 +189,7 @@ static Reg r_bil("geoidbil", [](const Args& a) {
     }
   }
   emit("done");
-  std::remove((tmpdir() + "/" + name + ".pgm").c_str());
+  std::remove(pgm_path(name).c_str());
 });
 
 // the documented cubic interpolation reproduces a raster sampled from a cubic polynomial (interior cells)
@@ -104,7 +205,7 @@ static Reg r_cub("geoidcubic", [](const Args& a) {
     if (!(std::fabs(v - ref) <= 1e-9 * std::fabs(ref)) && nb++ < 3) bad("cubic-reproduces-cubics", "cubic interpolation of a cubic raster is off: " + fmt(v) + " vs " + fmt(ref));
   }
   emit("done");
-  std::remove((tmpdir() + "/" + name + ".pgm").c_str());
+  std::remove(pgm_path(name).c_str());
 });
 
 static Reg r_hdr("geoidhdr", [](const Args& a) {
@@ -119,24 +220,294 @@ static Reg r_hdr("geoidhdr", [](const Args& a) {
   if (ok1 != ok2) bad("header-validation", "plain and thread-safe constructors disagree on a file");
   if (!e1.empty() && e1 != "!E") bad("foreign-exception", e1);
   if (!e2.empty() && e2 != "!E") bad("foreign-exception", e2);
-  std::remove((tmpdir() + "/" + name + ".pgm").c_str());
+  std::remove(pgm_path(name).c_str());
 });
+
+// ---------------------------------------------------------------------------------------------------------
+// byte-level headers: the file is <header bytes> followed by <datalen> data bytes of pattern <kind>
+// ---------------------------------------------------------------------------------------------------------
+static unsigned char data_byte(int kind, uint64_t i) {
+  switch (kind) { case 0: return 0; case 1: return '5'; case 2: return (unsigned char)((i * 37 + 11) & 255); case 3: return ' '; default: return (unsigned char)("7 \n"[i % 3]); }
+}
+static const uint64_t SMALL = 65536;
+// returns false when a large file cannot be stored sparsely here (the case is skipped)
+static bool write_raw(const std::string& path, const std::string& header, uint64_t datalen, int kind) {
+  int fd = ::open(path.c_str(), O_CREAT | O_TRUNC | O_WRONLY, 0600);
+  if (fd < 0) return false;
+  bool ok = ::write(fd, header.data(), header.size()) == ssize_t(header.size());
+  if (datalen <= SMALL) {
+    std::string d(size_t(datalen), '\0'); for (uint64_t i = 0; i < datalen; ++i) d[size_t(i)] = char(data_byte(kind, i));
+    ok = ok && ::write(fd, d.data(), d.size()) == ssize_t(d.size());
+  } else {
+    ok = ok && kind == 0 && ::ftruncate(fd, off_t(header.size() + datalen)) == 0;
+    struct stat st; ok = ok && ::fstat(fd, &st) == 0 && uint64_t(st.st_size) == header.size() + datalen && uint64_t(st.st_blocks) * 512 <= header.size() + (1u << 20);   // really sparse?
+  }
+  ::close(fd);
+  if (!ok) std::remove(path.c_str());
+  return ok;
+}
+
+static Reg r_pgm("geoidpgm", [](const Args& a) {
+  // cubic expect s:<header> datalen kind   | ok offset scale maxerr rmserr w h datastart rlonres rlatres s:<description> s:<datetime>   or   !E s:<message>
+  bool cubic = a[0] == "1"; int expect = std::atoi(a[1].c_str()); std::string H = unhs(a[2]); uint64_t datalen = std::strtoull(a[3].c_str(), nullptr, 10); int kind = std::atoi(a[4].c_str());
+  std::string name = "p" + std::to_string(getpid()), path = pgm_path(name); const bool big = datalen > SMALL;
+  if (!write_raw(path, H, datalen, kind)) { emit("skip"); stat("sparse-files-unavailable"); return; }
+  Ctor c = construct(name, tmpdir(), cubic, false);
+  if (big) std::remove(path.c_str());          // a sparse multi-GB file never stays on disk (the open stream keeps it alive)
+  if (!c.g) {
+    emit(c.geo ? "!E " + hs(c.err) : c.err);
+    if (!c.geo) bad("foreign-exception", c.err);
+    if (expect == 1) bad("valid-file-rejected", "a well-formed file is rejected: " + c.err);
+    if (!big) { Ctor t = construct(name, tmpdir(), cubic, true); if (t.g) bad("header-validation", "the thread-safe constructor accepts a file the plain one rejects (" + c.err + ")"); }
+    std::remove(path.c_str()); return;
+  }
+  Geoid& g = *c.g;
+  emit("ok " + hx(g.Offset()) + " " + hx(g.Scale()) + " " + hx(g.MaxError()) + " " + hx(g.RMSError()) + " " + std::to_string(g._width) + " " + std::to_string(g._height) + " " +
+       std::to_string(g._datastart) + " " + hx(g._rlonres) + " " + hx(g._rlatres) + " " + hs(g.Description()) + " " + hs(g.DateTime()));
+  if (expect == 0) bad("malformed-file-accepted", "a file that violates the documented format is accepted (" + std::to_string(g._width) + " x " + std::to_string(g._height) + ", " + std::to_string(H.size() + datalen) + " bytes)");
+  // accepted => every pixel of the announced raster lies inside the file, in unbounded arithmetic
+  unsigned __int128 needlen = (unsigned __int128)(g._datastart) + 2 * (unsigned __int128)(g._width > 0 ? g._width : 0) * (unsigned __int128)(g._height > 0 ? g._height : 0);
+  if (!(g._width >= 2 && g._height >= 3 && g._width % 2 == 0 && g._height % 2 == 1 && needlen == (unsigned __int128)(H.size()) + datalen && g.Scale() > 0))
+    bad("accepted-raster-not-in-file", "accepted " + std::to_string(g._width) + " x " + std::to_string(g._height) + " raster with data at " + std::to_string(g._datastart) + " in a file of " + std::to_string(H.size() + datalen) + " bytes");
+  if (g.GeoidFile() != path || g.GeoidName() != name || g.GeoidDirectory() != tmpdir() || g.Interpolation() != (cubic ? "cubic" : "bilinear") || g.ThreadSafe() || g.Cache())
+    bad("inspectors", "GeoidFile/GeoidName/GeoidDirectory/Interpolation/ThreadSafe/Cache of a new object");
+  if (g.EquatorialRadius() != Constants::WGS84_a() || g.Flattening() != Constants::WGS84_f() || g.CacheWest() != 0 || g.CacheEast() != 0 || g.CacheNorth() != 0 || g.CacheSouth() != 0)
+    bad("inspectors", "EquatorialRadius/Flattening are not those of WGS84, or a cache extent is reported without a cache");
+  // an accepted file can be read everywhere
+  static const double lats[] = {90, -90, 0, 45.5, -89.999, 89.999}, lons[] = {0, -180, 180, 359.9, -0.1};
+  for (double la : lats) for (double lo : lons) {
+    double v = 0; std::string e = guarded([&] { v = g(la, lo); });
+    if (!e.empty()) { bad("accepted-file-unreadable", "height(" + fmt(la) + ", " + fmt(lo) + ") threw " + e + " on an accepted file"); break; }
+    if (big) { double z = 0, ref = g.Offset() + g.Scale() * z; if (!(v == ref)) { bad("sparse-raster-value", "height " + fmt(v) + " on an all-zero raster, expected " + fmt(ref)); break; } }
+  }
+  if (!big && uint64_t(g._width) * uint64_t(g._height) <= (1u << 22)) {     // the thread-safe constructor reads the whole raster into memory
+    Ctor t = construct(name, tmpdir(), cubic, true);
+    if (!t.g) bad("header-validation", "the thread-safe constructor rejects a file the plain one accepts: " + t.err);
+    else if (t.g->Offset() != g.Offset() || t.g->Scale() != g.Scale() || !t.g->ThreadSafe() || !t.g->Cache()) bad("header-validation", "thread-safe object differs in offset/scale/flags");
+  }
+  std::remove(path.c_str());
+});
+
+// a *valid* raster of more than 2^32 bytes (sparse file) with a few non-zero pixels at byte offsets around 2^31, 2^32, the end
+static Reg r_big("geoidbig", [](const Args& a) {
+  // cubic s:<header> w h seed   | accepted nchecked
+  bool cubic = a[0] == "1"; std::string H = unhs(a[1]); long w = std::atol(a[2].c_str()), h = std::atol(a[3].c_str()); uint64_t seed = std::strtoull(a[4].c_str(), nullptr, 10);
+  std::string name = "B" + std::to_string(getpid()), path = pgm_path(name); uint64_t npix = uint64_t(w) * uint64_t(h);
+  if (!write_raw(path, H, 2 * npix, 0)) { emit("skip"); stat("sparse-files-unavailable"); return; }
+  std::vector<uint64_t> P = {0, npix - 1, npix / 2, (1ull << 30) - 1, 1ull << 30, (1ull << 30) + 1, (1ull << 31) - 1, 1ull << 31, (1ull << 31) + 1, (1ull << 32), (1ull << 32) + 1, npix - uint64_t(w), uint64_t(w) - 1};
+  for (int k = 0; k < 4; ++k) P.push_back(mix(seed + uint64_t(k)) % npix);
+  std::vector<std::pair<uint64_t, unsigned>> pix;
+  { int fd = ::open(path.c_str(), O_WRONLY);
+    for (uint64_t p : P) if (p < npix) { unsigned v = 1 + unsigned(mix(seed ^ p) % 65535); unsigned char b[2] = {(unsigned char)(v >> 8), (unsigned char)(v & 255)};
+      bool dup = false; for (auto& q : pix) if (q.first == p) dup = true;
+      if (!dup && fd >= 0 && ::pwrite(fd, b, 2, off_t(H.size() + 2 * p)) == 2) pix.push_back({p, v}); }
+    if (fd >= 0) ::close(fd); }
+  Ctor c = construct(name, tmpdir(), false, false), cc = construct(name, tmpdir(), true, false);
+  std::remove(path.c_str());
+  if (!c.g || !cc.g) { emit("0 0"); bad("valid-file-rejected", "a well-formed raster of " + std::to_string(2 * npix) + " data bytes is rejected: " + c.err + cc.err); return; }
+  Geoid& g = *c.g; int n = 0, nb = 0;
+  double dlat = 180.0 / double(h - 1), dlon = 360.0 / double(w), tol = 1e-5 * g.Scale() * 65535;
+  for (auto& q : pix) {
+    long ix = long(q.first % uint64_t(w)), iy = long(q.first / uint64_t(w)); double lat = 90 - double(iy) * dlat, lon = double(ix) * dlon, v = 0; if (lat < -90) lat = -90;
+    std::string e = guarded([&] { v = g(lat, lon); }); double ref = g.Offset() + g.Scale() * q.second; ++n;
+    // neighbouring poked pixels can leak in with the weight of the rounding of lat/lon (<= 2^-22 cells)
+    if (!e.empty() || !(std::fabs(v - ref) <= tol)) { if (nb++ < 3) bad("large-raster-pixel", "pixel " + std::to_string(q.first) + " (col " + std::to_string(ix) + ", row " + std::to_string(iy) + ") of a " + std::to_string(w) + " x " + std::to_string(h) + " raster: height " + (e.empty() ? fmt(v) : e) + ", file says " + fmt(ref)); continue; }
+    if (cubic) {
+      // history independence far into the file: cubic height with and without an area cache around the point
+      double u0 = 0, u1 = 0; std::string e1 = guarded([&] { cc.g->CacheClear(); u0 = (*cc.g)(lat, lon); cc.g->CacheArea(std::fmax(-90.0, lat - 2 * dlat), lon - 2 * dlon, std::fmin(90.0, lat + 2 * dlat), lon + 2 * dlon); u1 = (*cc.g)(lat + 0 * dlat, lon); });
+      if (!e1.empty() || bits(u0) != bits(u1)) { if (nb++ < 3) bad("cache-mode-dependence", "cubic height at pixel " + std::to_string(q.first) + " of a large raster: " + (e1.empty() ? fmt(u0) + " uncached vs " + fmt(u1) + " cached" : e1)); }
+    }
+  }
+  emit("1 " + std::to_string(n));
+});
+
+// rasters with a dimension above 2^30: the index arithmetic of rawval / CacheArea is done in int, so the constructor must
+// refuse them (finding F73, repaired).  The probe runs in a child process, so that a sanitizer abort - should such a
+// raster ever be accepted again - is a result of this op and not the end of the harness.
+#include <sys/wait.h>
+static Reg r_huge("geoidhuge", [](const Args& a) {
+  // mode : 0 = height 2^30+1 (w = 2), cubic height at the south pole; 1 = width 1 500 000 000 (h = 3), height outside a small area cache
+  int mode = std::atoi(a[0].c_str()); long w = mode == 0 ? 2 : 1500000000l, h = mode == 0 ? (1l << 30) + 1 : 3;
+  std::string name = "U" + std::to_string(getpid()), path = pgm_path(name);
+  std::string H = "P5\n# Offset -108\n# Scale 0.003\n" + std::to_string(w) + " " + std::to_string(h) + "\n65535\n";
+  if (!write_raw(path, H, 2ull * uint64_t(w) * uint64_t(h), 0)) { emit("skip"); stat("sparse-files-unavailable"); return; }
+  std::fflush(stdout); std::fflush(stderr);
+  pid_t pid = fork();
+  if (pid == 0) {
+    int dn = ::open("/dev/null", O_WRONLY); if (dn >= 0) { dup2(dn, 1); dup2(dn, 2); }
+    int rc = 0;
+    try { Geoid g(name, tmpdir(), true, false);
+      if (mode == 0) { double v = g(-90, 0); rc = (v == g.Offset()) ? 0 : 4; }
+      else { g.CacheArea(-10, 10, 10, 10.001); double v = g(0, -100); rc = (v == g.Offset()) ? 0 : 4; } }
+    catch (const GeographicErr&) { rc = 3; } catch (...) { rc = 5; }
+    _exit(rc);
+  }
+  int st = 0; waitpid(pid, &st, 0); std::remove(path.c_str());
+  int rc = WIFEXITED(st) ? WEXITSTATUS(st) : 100 + (WIFSIGNALED(st) ? WTERMSIG(st) : 0);
+  emit(std::to_string(rc));
+  // 3 = GeographicErr (the constructor refuses such sizes), 0 = evaluated correctly; anything else: abort / wrong value
+  if (rc != 0 && rc != 3) bad("huge-dimension-index-overflow", std::string(mode == 0 ? "raster 2 x 1073741825, cubic height at the south pole" : "raster 1500000000 x 3, height outside a small area cache") +
+    ": child process ended with status " + std::to_string(rc) + " (sanitizer abort: int overflow in rawval / CacheArea)");
+});
+
+// default path / name lookup
+static void set_or_unset(const char* k, const std::string& v) { if (v == "-") unsetenv(k); else setenv(k, unhs(v).c_str(), 1); }
+static Reg r_env("geoidenv", [](const Args& a) {
+  // GEOGRAPHICLIB_GEOID_PATH GEOGRAPHICLIB_DATA GEOGRAPHICLIB_GEOID_NAME (each "-" = unset or s:<hex>)  | s:<DefaultGeoidPath> s:<DefaultGeoidName>
+  set_or_unset("GEOGRAPHICLIB_GEOID_PATH", a[0]); set_or_unset("GEOGRAPHICLIB_DATA", a[1]); set_or_unset("GEOGRAPHICLIB_GEOID_NAME", a[2]);
+  std::string p = Geoid::DefaultGeoidPath(), n = Geoid::DefaultGeoidName();
+  unsetenv("GEOGRAPHICLIB_GEOID_PATH"); unsetenv("GEOGRAPHICLIB_DATA"); unsetenv("GEOGRAPHICLIB_GEOID_NAME");
+  emit(hs(p) + " " + hs(n));
+});
+static Reg r_lookup("geoidlookup", [](const Args& a) {
+  // mode cubic : 0 = file found through GEOGRAPHICLIB_GEOID_PATH, 1 = through GEOGRAPHICLIB_DATA/geoids, 2 = missing file, 3 = missing directory (explicit path)
+  int mode = std::atoi(a[0].c_str()); bool cubic = a[1] == "1"; std::string name = "L" + std::to_string(getpid()), dir = tmpdir();
+  if (mode == 1) { dir = tmpdir() + "/geoids"; mkdir(dir.c_str(), 0777); }
+  std::string path = dir + "/" + name + ".pgm";
+  { std::string p0 = write_pgm(name, "P5", true, -108, true, 0.003, 4, 5, 65535, 0, 3, 0); if (p0 != path) std::rename(p0.c_str(), path.c_str()); }
+  if (mode == 0) setenv("GEOGRAPHICLIB_GEOID_PATH", dir.c_str(), 1);
+  if (mode == 1) { unsetenv("GEOGRAPHICLIB_GEOID_PATH"); setenv("GEOGRAPHICLIB_DATA", tmpdir().c_str(), 1); }
+  Ctor c = mode <= 1 ? construct(name, "", cubic, false) : construct(mode == 2 ? name + "-absent" : name, mode == 2 ? dir : dir + "/no-such-dir", cubic, false);
+  unsetenv("GEOGRAPHICLIB_GEOID_PATH"); unsetenv("GEOGRAPHICLIB_DATA");
+  if (c.g) {
+    emit("ok " + hs(c.g->GeoidFile().substr(c.g->GeoidFile().size() >= name.size() + 5 ? c.g->GeoidFile().size() - name.size() - 5 : 0)) + " " + hs(c.g->Interpolation()));
+    if (mode >= 2) bad("missing-file-accepted", "a Geoid object was constructed from a file that does not exist");
+    if (c.g->GeoidFile() != path || c.g->GeoidName() != name || c.g->GeoidDirectory() != dir) bad("default-path-lookup", "GeoidFile() = " + c.g->GeoidFile() + ", expected " + path);
+    double v = 0; std::string e = guarded([&] { v = (*c.g)(10, 20); }); if (!e.empty() || !std::isfinite(v)) bad("default-path-lookup", "object found through the default path cannot be evaluated");
+  } else {
+    emit(c.geo ? "!E " + hs(c.err) : c.err);
+    if (mode <= 1) bad("default-path-lookup", "file in the default geoid directory not found: " + c.err);
+    if (!c.geo) bad("foreign-exception", c.err);
+  }
+  std::remove(path.c_str()); if (mode == 1) rmdir(dir.c_str());
+});
+
+// ---------------------------------------------------------------------------------------------------------
+// GeoidEval, in-process
+// ---------------------------------------------------------------------------------------------------------
+static int run_geoideval(const std::vector<std::string>& args, const std::string& input, std::string& output, std::string& errout) {
+  std::vector<const char*> argv; argv.push_back("GeoidEval"); for (auto& s : args) argv.push_back(s.c_str());
+  std::istringstream in(input); std::ostringstream out, err;
+  std::streambuf *oi = std::cin.rdbuf(in.rdbuf()), *oo = std::cout.rdbuf(out.rdbuf()), *oe = std::cerr.rdbuf(err.rdbuf());
+  std::cin.clear();
+  int rc = -99; std::string ex;
+  try { rc = tool_geoideval::main(int(argv.size()), argv.data()); } catch (const std::exception& e) { ex = typeid(e).name(); } catch (...) { ex = "unknown"; }
+  std::cin.rdbuf(oi); std::cout.rdbuf(oo); std::cerr.rdbuf(oe); std::cin.clear(); std::cout.clear(); std::cerr.clear();
+  output = out.str(); errout = err.str();
+  if (!ex.empty()) { bad("tool-exception-escapes", "GeoidEval: exception " + ex + " escaped main"); return -98; }
+  return rc;
+}
+static std::vector<std::string> split_lines(const std::string& s) { std::vector<std::string> v; std::istringstream is(s); std::string l; while (std::getline(is, l)) v.push_back(l); return v; }
+static std::string printable(std::string s) { for (auto& ch : s) if ((unsigned char)ch < 32 || (unsigned char)ch > 126) ch = '?'; for (size_t i = 0; i + 1 < s.size(); ++i) if (s[i] == ':' && s[i + 1] == ':') s[i + 1] = '.'; return s; }
+
+static Reg r_eval("geoideval", [](const Args& a) {
+  // w h cubic kind seed mode s:<input>   | rc nin nout nerr s:<output>
+  // mode 0 plain, 1 --msltohae, 2 --haetomsl, 3 -w, 4 -z 31n, 5 --comment-delimiter #, 6 --input-string (lines separated by ;)
+  int w = std::atoi(a[0].c_str()), h = std::atoi(a[1].c_str()); bool cubic = a[2] == "1"; int kind = std::atoi(a[3].c_str()); uint64_t seed = std::strtoull(a[4].c_str(), nullptr, 10);
+  int mode = std::atoi(a[5].c_str()); std::string input = unhs(a[6]);
+  std::string name = "e" + std::to_string(getpid()); const double offset = -108, scale = 0.003;
+  write_pgm(name, "P5", true, offset, true, scale, w, h, 65535, kind, seed, 0);
+  std::vector<std::string> base = {"-n", name, "-d", tmpdir()}; if (!cubic) base.push_back("-l");
+  if (mode == 1) base.push_back("--msltohae"); if (mode == 2) base.push_back("--haetomsl"); if (mode == 3) base.push_back("-w");
+  if (mode == 4) { base.push_back("-z"); base.push_back("31n"); } if (mode == 5) { base.push_back("--comment-delimiter"); base.push_back("#"); }
+  std::string stdin_text = input, istr;
+  if (mode == 6) { istr = input; for (auto& ch : istr) if (ch == '\n') ch = ';'; if (!istr.empty() && istr.back() == ';') istr.pop_back(); base.push_back("--input-string"); base.push_back(istr); stdin_text.clear(); }
+  Rng r(seed * 7919 + 5);
+  double cs = r.range(-90, 60), cw = r.range(-180, 180), cn = cs + r.range(1, 30), ce = cw + r.range(1, 200);
+  std::vector<std::vector<std::string>> cachev = {{}, {"-a"}, {"-c", fmt(cs), fmt(cw), fmt(cn), fmt(ce)}, {"-v"}};
+  std::vector<std::string> outs; int rc0 = 0; std::string err0;
+  for (size_t k = 0; k < cachev.size(); ++k) {
+    std::vector<std::string> args = cachev[k]; args.insert(args.end(), base.begin(), base.end());
+    std::string out, err; int rc = run_geoideval(args, stdin_text, out, err);
+    if (rc < -90) { emit("-98 0 0 0 s:"); std::remove(pgm_path(name).c_str()); return; }
+    if (k == 0) { rc0 = rc; err0 = err; } else if (rc != rc0) bad("tool-cache-option", "exit status " + std::to_string(rc) + " with " + cachev[k][0] + ", " + std::to_string(rc0) + " without");
+    outs.push_back(out);
+    if (k == 3 && (err.find("Offset (m): -108") == std::string::npos || err.find(std::string("Interpolation: ") + (cubic ? "cubic" : "bilinear")) == std::string::npos || err.find("Scale (m): 0.003") == std::string::npos))
+      bad("tool-verbose", "GeoidEval -v does not report interpolation / offset / scale of the object: " + printable(err.substr(0, 200)));
+  }
+  for (size_t k = 1; k < outs.size(); ++k) if (outs[k] != outs[0]) bad("tool-cache-option", "GeoidEval output changes with " + cachev[k][0] + ": '" + printable(outs[k].substr(0, 120)) + "' vs '" + printable(outs[0].substr(0, 120)) + "'");
+  // the lines the tool reads: standard input, or the --input-string with ';' turned into line feeds (an empty string means standard input, here empty)
+  std::vector<std::string> in = split_lines(mode == 6 ? [&] { std::string s = istr; for (auto& ch : s) if (ch == ';') ch = '\n'; return s; }() : input), out = split_lines(outs[0]);
+  int nerr = 0; for (auto& l : out) if (l.compare(0, 6, "ERROR:") == 0) ++nerr;
+  emit(std::to_string(rc0) + " " + std::to_string(in.size()) + " " + std::to_string(out.size()) + " " + std::to_string(nerr) + " " + hs(outs[0].substr(0, 4000)));
+  bool endnl = outs[0].empty() || outs[0].back() == '\n';
+  if (in.size() != out.size() || !endnl) { bad("tool-line-count", "GeoidEval: " + std::to_string(in.size()) + " input lines, " + std::to_string(out.size()) + " output lines"); std::remove(pgm_path(name).c_str()); return; }
+  if ((nerr > 0) != (rc0 != 0)) bad("tool-exit-status", "GeoidEval: " + std::to_string(nerr) + " ERROR lines, exit status " + std::to_string(rc0));
+  // heights equal the object's
+  Geoid g(name, tmpdir(), cubic, false);
+  std::string back_in; std::vector<double> hin;
+  for (size_t i = 0; i < in.size(); ++i) {
+    bool iserr = out[i].compare(0, 6, "ERROR:") == 0; std::string line = in[i], tail;
+    if (mode == 5) { size_t m = line.find('#'); if (m != std::string::npos) { tail = " " + line.substr(m); size_t m1 = m > 0 ? line.find_last_not_of(" \t\n\v\f\r,", m - 1) : std::string::npos; line = line.substr(0, m1 != std::string::npos ? m1 + 1 : m); } }
+    if (mode == 0 || mode == 3 || mode == 5 || mode == 6) {
+      std::string expect; try { GeoCoords p(line, true, mode == 3); expect = Utility::str(g(p.Latitude(), p.Longitude()), 4) + tail; } catch (const std::exception&) { expect = "ERROR:"; }
+      if (expect == "ERROR:" ? !iserr : out[i] != expect) bad("tool-height", "GeoidEval line '" + printable(in[i]) + "' -> '" + printable(out[i]) + "', the object gives '" + printable(expect) + "'");
+    } else if (mode == 4) {
+      double e = 0, n = 0; char x = 0; std::string expect;
+      if (std::sscanf(line.c_str(), "%lf %lf %c", &e, &n, &x) == 2) { try { GeoCoords p(31, true, e, n); expect = Utility::str(g(p.Latitude(), p.Longitude()), 4); } catch (const std::exception&) { expect = "ERROR:"; }
+        if (expect == "ERROR:" ? !iserr : out[i] != expect) bad("tool-height", "GeoidEval -z 31n line '" + printable(in[i]) + "' -> '" + printable(out[i]) + "', the object gives '" + expect + "'"); }
+    } else {
+      double la = 0, lo = 0, hh = 0; char x = 0;
+      if (std::sscanf(line.c_str(), "%lf %lf %lf %c", &la, &lo, &hh, &x) == 3 && std::fabs(la) <= 90 && std::isfinite(lo) && std::isfinite(hh) && std::fabs(hh) < 1e9) {
+        if (iserr) { bad("tool-valid-line-rejected", "GeoidEval: '" + printable(in[i]) + "' -> '" + printable(out[i]) + "'"); continue; }
+        size_t sp = out[i].find_last_of(" \t"); double got = std::atof(out[i].substr(sp == std::string::npos ? 0 : sp + 1).c_str()), N = g(la, lo), want = hh + (mode == 1 ? N : -N);
+        if (!(std::fabs(got - want) <= 0.5e-4 + 1e-9 * (1 + std::fabs(want)))) bad("tool-height", "GeoidEval " + std::string(mode == 1 ? "--msltohae" : "--haetomsl") + " '" + printable(in[i]) + "' -> '" + printable(out[i]) + "', expected " + fmt(want));
+        back_in += out[i] + "\n"; hin.push_back(hh);
+      }
+    }
+  }
+  if ((mode == 1 || mode == 2) && !hin.empty()) {
+    // --msltohae and --haetomsl are mutually inverse (to the printed precision: two roundings to 1e-4)
+    std::vector<std::string> args = {"-n", name, "-d", tmpdir()}; if (!cubic) args.push_back("-l"); args.push_back(mode == 1 ? "--haetomsl" : "--msltohae");
+    std::string out2, err2; int rc2 = run_geoideval(args, back_in, out2, err2); auto o2 = split_lines(out2);
+    if (rc2 != 0 || o2.size() != hin.size()) bad("tool-output-reparse", "GeoidEval does not accept its own converted lines");
+    else for (size_t i = 0; i < hin.size(); ++i) { size_t sp = o2[i].find_last_of(" \t"); double got = std::atof(o2[i].substr(sp == std::string::npos ? 0 : sp + 1).c_str());
+      if (!(std::fabs(got - hin[i]) <= 1.5e-4 + 1e-9 * std::fabs(hin[i]))) bad("tool-convert-inverse", "GeoidEval --msltohae/--haetomsl round trip: " + fmt(hin[i]) + " -> '" + printable(o2[i]) + "'"); }
+  }
+  std::remove(pgm_path(name).c_str());
+});
+
+// ---------------------------------------------------------------------------------------------------------
+// generators
+// ---------------------------------------------------------------------------------------------------------
+static std::string posline(Rng& r, int mode) {
+  double lat = r.irange(0, 5) ? r.range(-90, 90) : r.pick(std::vector<double>{90, -90, 0, 89.99999, -89.99999}), lon = r.irange(0, 5) ? r.range(-180, 180) : r.pick(std::vector<double>{180, -180, 0, 359.5, -0.0});
+  char b[128];
+  if (mode == 4) { std::snprintf(b, sizeof b, "%.3f %.3f", r.range(200000, 800000), r.range(100000, 9300000)); return b; }
+  if (mode == 1 || mode == 2) { std::snprintf(b, sizeof b, "%.8f %.8f %.4f", lat, lon, r.irange(0, 3) ? r.range(-500, 9000) : r.pick(std::vector<double>{0, -0.0001, 12345.6789, 1e6})); return b; }
+  switch (r.irange(0, 5)) {
+  case 0: { int d = int(std::fabs(lat)), m = r.irange(0, 59); std::snprintf(b, sizeof b, "%dd%d'%c %dd%d'%c", d == 90 ? 89 : d, m, lat < 0 ? 'S' : 'N', int(std::fabs(lon)) % 180, r.irange(0, 59), lon < 0 ? 'W' : 'E'); break; }
+  case 1: std::snprintf(b, sizeof b, "%.6f,%.6f", lat, lon); break;
+  case 2: std::snprintf(b, sizeof b, "%s %s", (fmt(std::fabs(lat)) + (lat < 0 ? "S" : "N")).c_str(), (fmt(std::fabs(lon)) + (lon < 0 ? "W" : "E")).c_str()); break;
+  default: std::snprintf(b, sizeof b, "%.10f %.10f", lat, lon); }
+  std::string s = b;
+  if (mode == 3 && s.find_first_of("NSEW") == std::string::npos) { std::snprintf(b, sizeof b, "%.10f %.10f", lon, lat); s = b; }   // longitude first
+  if (mode == 5 && r.coin()) s += r.pick(std::vector<std::string>{" # remark", "# x", "  #", " #a#b"});
+  return s;
+}
+static std::string badline(Rng& r) {
+  static const std::vector<std::string> v = {"91 0", "-90.0001 10", "abc", "", " ", "1", "1 2 3 4 5", "10N 20N", "nan nan", "45 inf", "1e400 2", "33d60'N 44E", "#", "10 20 30 40", "\t", "38SMB", "0 0 x y z"};
+  return r.pick(v);
+}
 
 void gv::generate(const std::string& tier, uint64_t seed) {
   Rng r(seed * 49979687 + 20);
-  long n = tier == "thorough" ? 1500 : 120;
+  const bool thorough = tier == "thorough";
+  long n = thorough ? 1500 : 300;
+  static const std::vector<int> oddh = {59, 111, 117, 187, 27, 53, 99, 105, 61, 181};      // raster heights whose latitude scale (h-1)/180 is inexact: 90 * _rlatres rounds above (h-1)/2 for 59, 111, 117, 187 (the row clamp at the north pole)
   for (long i = 0; i < n; ++i) {
-    int w = 2 * r.irange(1, tier == "thorough" ? 40 : 8), h = 2 * r.irange(1, tier == "thorough" ? 20 : 4) + 1;
+    int w = 2 * r.irange(1, thorough ? 40 : 8), h = 2 * r.irange(1, thorough ? 20 : 4) + 1;
     if (i % 11 == 0) { w = 2; h = 3; }
+    if (i % 12 == 5) { h = r.pick(oddh); w = 2 * r.irange(1, 4); }
     double offset = r.pick(std::vector<double>{-108.0, 0.0, -50.5, 1000.0}), scale = r.pick(std::vector<double>{0.003, 1.0, 0.0625, 1e-5});
     bool cubic = r.coin(), ts = r.irange(0, 4) == 0; int kind = r.irange(0, 2); uint64_t ps = r.next() % 1000000;
     Args ops = {std::to_string(w), std::to_string(h), hx(offset), hx(scale), cubic ? "1" : "0", ts ? "1" : "0", std::to_string(kind), std::to_string(ps)};
     double dlon = 360.0 / w, dlat = 180.0 / (h - 1);
-    int len = r.irange(1, tier == "thorough" ? 200 : 40);
+    int len = r.irange(1, thorough ? 200 : 40);
     double plat = 0, plon = 0;
     for (int j = 0; j < len; ++j) {
-      int k = r.irange(0, 19);
-      if (k < 14) {
+      int k = r.irange(0, 21);
+      if (k < 14 || k >= 20) {
         double lat, lon; int m = r.irange(0, 9);
         switch (m) {
         case 0: lat = 90 - dlat * r.irange(0, h - 1); lon = dlon * r.irange(-w, 2 * w); break;                 // nodes
@@ -147,12 +518,16 @@ void gv::generate(const std::string& tier, uint64_t seed) {
         case 5: lat = plat + r.range(-0.3, 0.3) * dlat; lon = plon + r.range(-0.3, 0.3) * dlon; if (std::fabs(lat) > 90) lat = plat; break;
         case 6: lat = (r.coin() ? 1 : -1) * (90 - r.range(0, 1.5) * dlat); lon = (r.coin() ? 180 : -180) + r.range(-1.5, 1.5) * dlon; break;   // polar caps near ±180
         default: lat = r.range(-90, 90); lon = r.range(-180, 180); }
-        if (j % 37 == 36) lat = r.pick(std::vector<double>{NAN, 91.0, -90.5}); if (j % 41 == 40) lon = NAN;
+        if (j % 37 == 36) lat = r.pick(std::vector<double>{NAN, 91.0, -90.5}); if (j % 41 == 40) lon = r.pick(std::vector<double>{NAN, INFINITY, -INFINITY});
         plat = lat; plon = lon;
-        ops.push_back("H:" + hx(lat) + ":" + hx(lon));
+        if (k >= 20) ops.push_back("C:" + hx(lat) + ":" + hx(lon) + ":" + hx(r.irange(0, 3) ? r.range(-1000, 9000) : r.pick(std::vector<double>{0, -0.0, 1e-300, 1e15, -123.456, 8848.86})));
+        else ops.push_back("H:" + hx(lat) + ":" + hx(lon));
       } else if (k < 17) {
         double s = r.range(-90, 90), nn = r.irange(0, 6) ? s + r.range(0, 90) : s - 1; if (nn > 90 && r.coin()) nn = 90;
+        if (r.irange(0, 9) == 0) { s = r.pick(std::vector<double>{-90, 90, 0, nextup(-90)}); nn = r.pick(std::vector<double>{90, s, nextdn(90)}); }      // pole-touching, degenerate
         double we = r.irange(0, 2) ? r.range(-180, 180) : r.pick(std::vector<double>{-10, 350, 170, -180, 0}), ea = r.irange(0, 2) ? we + r.range(0, 360) : r.pick(std::vector<double>{10, -170, 180, 0, 360});
+        if (r.irange(0, 9) == 0) ea = r.pick(std::vector<double>{we, we + 360, we + 720, nextup(we), we - 1e-9, we + 359.999999});                          // degenerate / whole circle / larger than the raster
+        if (r.irange(0, 29) == 0) { double bad = r.pick(std::vector<double>{NAN, INFINITY, -INFINITY, 1e300}); switch (r.irange(0, 3)) { case 0: s = bad; break; case 1: we = bad; break; case 2: nn = bad; break; default: ea = bad; } }
         ops.push_back("A:" + hx(s) + ":" + hx(we) + ":" + hx(nn) + ":" + hx(ea));
       } else if (k < 18) ops.push_back("L");
       else ops.push_back("X");
@@ -162,7 +537,7 @@ void gv::generate(const std::string& tier, uint64_t seed) {
     if (i < 2) sample(current_op().substr(0, 300));
     if (i % 20 == 0) run("geoidcubic", {"16", "11"});
     if (i % 10 == 0) run("geoidbil", {std::to_string(w), std::to_string(h), std::to_string(ps)});
-    // header variants
+    // header variants (structured fields)
     if (i % 2 == 0) {
       std::string magic = r.irange(0, 5) ? "P5" : r.pick(std::vector<std::string>{"P6", "P2", "p5", "P5x"});
       bool offp = r.irange(0, 5) != 0, scp = r.irange(0, 5) != 0; double sc = r.irange(0, 4) ? 0.003 : r.pick(std::vector<double>{0.0, -0.003, 1e-300});
@@ -170,6 +545,38 @@ void gv::generate(const std::string& tier, uint64_t seed) {
       long mv = r.irange(0, 4) ? 65535 : r.pick(std::vector<long>{255, 65536, 0, 65534}); long delta = r.irange(0, 3) ? 0 : r.pick(std::vector<long>{-1, 1, -2, 2, 10});
       run("geoidhdr", {magic, offp ? "1" : "0", hx(sc), scp ? "1" : "0", std::to_string(hw), std::to_string(hh), std::to_string(mv), std::to_string(delta)});
     }
+    // byte-level headers
+    for (int k = 0; k < 6; ++k) {
+      c20::Case c = c20::gen_case(r, thorough);
+      run("geoidpgm", {c.cubic ? "1" : "0", std::to_string(c.expect), hs(c.header), std::to_string(c.datalen), std::to_string(c.kind)});
+      stratum(c.stratum + (c.expect == 1 ? "-valid" : c.expect == 0 ? "-invalid" : ""));
+      if (i < 1 && k < 2) sample(current_op().substr(0, 300));
+    }
+    // a valid raster of more than 4 GiB
+    if (i % (thorough ? 25 : 40) == 7) {
+      static const std::vector<std::pair<long, long>> dims = {{65536, 32769}, {4096, 524291}, {2, 1073741823}, {46342, 46341}, {21600, 99421}, {4, 536870913}, {1073741824, 3}, {65538, 65537}, {2, 1073741823}};
+      auto d = r.pick(dims); if (!thorough && d.first * d.second > (1ll << 33)) d = dims[0];
+      c20::HB b; b.comments = {"# Offset -108\n", "# Scale 0.003\n"}; b.size = std::to_string(d.first) + " " + std::to_string(d.second) + "\n";
+      run("geoidbig", {r.coin() ? "1" : "0", hs(b.str()), std::to_string(d.first), std::to_string(d.second), std::to_string(r.next() % 1000000)});
+      stratum("large-raster-sparse");
+    }
+    // dimensions above 2^30 (must be refused: the index arithmetic is done in int)
+    if (i == 9 || (thorough && i % 300 == 9)) { run("geoidhuge", {std::to_string(int(i / 300) % 2 + (thorough ? 0 : int(seed % 2)))}); stratum("dimension-above-2^30"); }
+    // default path and name
+    if (i % 8 == 3) {
+      auto ev = [&]() -> std::string { int q = r.irange(0, 5); return q == 0 ? "-" : q == 1 ? hs("") : hs(r.pick(std::vector<std::string>{"/data/geo", "relative/dir", "/", "/x y", "egm2008-1", "egm84-15", "/usr/share/GeographicLib"})); };
+      run("geoidenv", {ev(), ev(), ev()}); stratum("default-path-name");
+      run("geoidlookup", {std::to_string(r.irange(0, 3)), r.coin() ? "1" : "0"}); stratum("default-path-lookup");
+    }
+    // GeoidEval
+    if (i % 5 == 2) {
+      int mode = r.irange(0, 6), nl = r.irange(0, 6); std::string in;
+      for (int q = 0; q < nl; ++q) in += (r.irange(0, 4) ? posline(r, mode) : badline(r)) + "\n";
+      if (mode == 6) for (auto& ch : in) if (ch == ';') ch = ',';
+      if (nl > 0 && mode != 6 && r.irange(0, 5) == 0) in.pop_back();                                             // no final newline
+      run("geoideval", {std::to_string(2 * r.irange(2, 8)), std::to_string(2 * r.irange(2, 5) + 1), r.coin() ? "1" : "0", std::to_string(r.irange(0, 2)), std::to_string(r.next() % 100000), std::to_string(mode), hs(in)});
+      stratum("geoideval-mode" + std::to_string(mode));
+    }
   }
 }
-int main(int argc, char** argv) { int rc = gv::main_(argc, argv); std::string d = tmpdir(); rmdir(d.c_str()); return rc; }
+int main(int argc, char** argv) { int rc = gv::main_(argc, argv); std::string d = tmpdir(); rmdir((d + "/geoids").c_str()); rmdir(d.c_str()); return rc; }
